@@ -95,8 +95,9 @@ CHECKS = {
             'Every output spec of the family x every sequence of <=2 (thorough 3) emissions over declared, undeclared and '
             'nested-dynamic paths and values x final return is run; acceptance of each out(), the stored outputs, the '
             'exception type, listener notifications, result preservation and the success flag are compared with '
-            'pv/refports.py.',
-            'Trusts the reference model; a fresh class per run; mappings as values and paths through leaf ports are '
+            'pv/refports.py. Each sequence runs on a fresh class; in addition every single emission is made by a second process '
+            'of a class whose first process made any single emission.',
+            'Trusts the reference model; mappings as values and paths through leaf ports are '
             'outside the alphabet.', 'DESIGN.md 3 C12'),
     'C14': ('history-bfs',
             'explicit-state breadth-first search over persister operation histories with canonical-state deduplication, '
